@@ -142,6 +142,10 @@ class Gen:
                 b = rng.choice(['U', 'U', 'g'])
                 base = {'U': 40.0 * float(s['dens']), 'g': 0.04 * float(s['dens']) / float(s['act']) * 1000}[b]
             init.append((s['id'], pick_qty(rng, base * scale * rng.uniform(0.3, 3), b, sig=rng.choice([1, 2, 2, 3]))))
+        if init and rng.random() < 0.2:
+            # the same substance listed twice (possibly in another unit): the amounts add up
+            sid, q0 = rng.choice(init)
+            init.insert(rng.randrange(len(init) + 1), (sid, dict(q0, v=dec(float(q0['v']) * rng.choice([0.5, 1, 2]), 2))))
         op = {'op': 'newc', 'out': self.fresh(), 'name': self.name(), 'init': init}
         if max_ml is not None:
             op['max'] = pick_qty(rng, max_ml / 1000.0, 'L', sig=3)
@@ -204,7 +208,9 @@ class Gen:
     def transfer_qty(self, src_obj, frac=None, unit=None, nshare=1, any_prefix=False):
         """a quantity that takes about `frac` of what container object src_obj holds, in a random unit it has"""
         rng = self.rng
-        units = [b for b in ('L', 'g', 'mol', 'U') if self.measure(src_obj, b) > 0]
+        # a mass request is rounded by the library to ten decimals of a GRAM (volumes and moles: of the storage unit): below a
+        # microgram the request itself would change, which the exact model cannot follow -- such sources are asked by volume or moles
+        units = [b for b in ('L', 'g', 'mol', 'U') if self.measure(src_obj, b) > (1e-6 if b == 'g' else 0)]
         if not units:
             return {'v': '1', 'p': 'm', 'b': 'L'}, 'L'
         b = unit if unit in units else rng.choice(units)
@@ -267,7 +273,7 @@ class Gen:
         """quantity every well of the region can give (about frac of the poorest non-empty well)"""
         cells = dsl.region_cells(r, 0)
         wells = [self.well_obj(pv, c) for c in cells]
-        units = [b for b in ('L', 'g', 'mol', 'U') if all(self.measure(w, b) > 0 for w in wells)]
+        units = [b for b in ('L', 'g', 'mol', 'U') if all(self.measure(w, b) > (1e-6 if b == 'g' else 0) for w in wells)]
         if not units:
             return None, None
         b = unit if unit in units else self.rng.choice(units)
@@ -336,6 +342,17 @@ class Gen:
             rd = self.region(d, rng.choice(['col', 'rect', 'all']))
         if rs is None or rd is None:
             return None
+        tagx = ''
+        if form in ('1n', 'n1') and rng.random() < 0.25:
+            # the single well written as a one-element list: numpy gives it shape (1,), the library refuses (RuntimeError)
+            one = rs if form == '1n' else rd
+            if 'rect' in one:
+                lst = {'list': [[one['rect'][0][0], one['rect'][1][0]]]}
+                if form == '1n':
+                    rs = lst
+                else:
+                    rd = lst
+                tagx = ':list1'
         nd = len(dsl.region_cells(rd, 0))
         q, b = self.min_well_qty(s, rs, (frac if frac is not None else rng.choice([0.2, 0.5, 0.8])) / (nd if form == '1n' else 1))
         if q is None:
@@ -346,7 +363,7 @@ class Gen:
             sc, dc = dsl.region_cells(rs, 0), dsl.region_cells(rd, 0)
             q = self.clear_of_capacity(q, [self.well_obj(s, c) for c in sc], [self.well_obj(d, c) for c in dc], fan_in=(len(sc) if len(dc) == 1 else 1))
         op = {'op': 'transfer', 'src': {'p': s, 'r': rs}, 'dst': {'p': d, 'r': rd}, 'q': q, 'osrc': self.fresh(), 'odst': self.fresh()}
-        o = self.emit(op, 'pair:' + form + (':same' if s == d else ':two'))
+        o = self.emit(op, 'pair:' + form + tagx + (':same' if s == d else ':two'))
         if o['ok']:
             if s == d:
                 self.replace(self.plates, s, op['odst'])
